@@ -967,11 +967,19 @@ fn run_case_once(case: &Value, sylt: &str, lua: &str, scratch: &Path, shimdir: &
             let mut got: Vec<u8> = Vec::new();
             let mut buf = [0u8; 65536];
             loop {
+                // the flag is read BEFORE the pipe: an empty pipe ends the loop only if the command had already ended
+                // when it was looked at (else what was written between the look and the flag would be lost)
+                let stopping = stop.load(std::sync::atomic::Ordering::SeqCst);
                 match fh.read(&mut buf) {
-                    Ok(0) => std::thread::sleep(std::time::Duration::from_millis(1)),
+                    Ok(0) => {
+                        if stopping {
+                            break;
+                        }
+                        std::thread::sleep(std::time::Duration::from_millis(1))
+                    }
                     Ok(n) => got.extend_from_slice(&buf[..n]),
                     Err(e) if e.kind() == std::io::ErrorKind::WouldBlock => {
-                        if stop.load(std::sync::atomic::Ordering::SeqCst) {
+                        if stopping {
                             break;
                         }
                         std::thread::sleep(std::time::Duration::from_millis(1));
